@@ -22,6 +22,7 @@ EXPLANATION = (
     "path obtained (.attr / [i] for every index in order / [lo:hi]) must be the storage operation the same path performs "
     "(setattr / __dict__[key] / position of the element in the nested list by the BFS invariant or the index walk / "
     "slice key in the non-sliced parent's __dict__), the prefix must be the full name of the object that stores it, "
+    "objects created from decorated methods are stored under their class-namespace key; "
     "slice bounds in the name must be the cache key and the absolute bounds (identity on a non-sliced signal, offset by "
     "the outer slice start and cached in the parent otherwise). R-C14-cache: lazily created field / slice signals are "
     "created only under `key not in container.__dict__`, stored under and returned from that very key. R-C14-meta: "
@@ -820,11 +821,81 @@ def rule_name_storage(repo):
             r.bad(fa.mod, fa.qual, cons + tag, msg, st.lineno)
         for g in good:
             r.ok(fa.mod, fa.qual, f"{cons} :: {g}")
+    _decorated_sites(r, repo)
     if seen_dead:
         r.observations.append(f"Signal.__getattr__ non-bitstruct arm treated as unreachable on {seen_dead} paths "
                               f"(Signal.__init__ asserts Bits-or-bitstruct; arm needs a type instance)")
-    r.require_floor(10)
+    r.require_floor(15)
     return r
+
+
+def _class_namespace_key(fa, n):
+    """n is the loop variable over the keys of the class namespace of the object under construction"""
+    d = fa.d(n)
+    if d is None or d.kind != 'iter':
+        return False
+    me = fa.me
+    src = norm(d.expr)
+    keys = {f"{me}.__class__.__dict__", f"type({me}).__dict__", f"vars({me}.__class__)", f"vars(type({me}))", f"dir({me})",
+            f"dir({me}.__class__)", f"dir(type({me}))"}
+    if src in keys or src in {k + '.keys()' for k in keys}:
+        return d.index == ()
+    if src in {k + '.items()' for k in keys}:
+        return d.index == (0,)
+    return False
+
+
+def _decorated_sites(r, repo):
+    """objects created from decorated methods (@method_port / @non_blocking / @blocking) are stored under the key the
+    method was found under in the class namespace -- the name the setattr hook then gives them evaluates to them"""
+    found = 0
+    for rel in DSL_FILES:
+        if not repo.exists(rel):
+            continue
+        m = repo.mod(rel)
+        for cname in sorted(m.classes):
+            if '_handle_decorated_methods' not in m.methods(cname):
+                continue
+            fa = analyse(repo, rel, f"{cname}._handle_decorated_methods")
+            me = fa.me
+            per = {}
+            for p in fa.paths:
+                for e in p.events:
+                    if not (e.kind == 'call' and e.bound is None):
+                        continue
+                    sl = _setattr_like(fa, e.call)
+                    if sl is None:
+                        continue
+                    C, n, v = sl
+                    r.evaluations += 1
+                    cons = pretty(norm(e.node))
+                    msgs = per.setdefault((cons, e.node.lineno), set())
+                    if norm(C) != me:
+                        msgs.add(f"object stored on `{pretty(C)}`, not on the component under construction")
+                    if not _class_namespace_key(fa, n):
+                        msgs.add(f"object stored under `{pretty(n)}`, which is not the key under which the method was found in "
+                                 f"the class namespace: `peek = method_port(lambda s: ...)` is registered as `<lambda>` (the "
+                                 f"name does not evaluate and s.peek stays a plain function); aliases and renamed "
+                                 f"functions likewise")
+                        continue
+                    dv = fa.d(v)
+                    ctor = v if isinstance(v, ast.Call) else (dv.expr if dv is not None and dv.kind == 'call' else None)
+                    wrapped = None
+                    if isinstance(ctor, ast.Call):
+                        wrapped = next((k.value for k in ctor.keywords if k.arg == 'method'), None)
+                    if wrapped is None:
+                        raise AnalysisError(f"{fa.qual}: cannot find the wrapped method of {pretty(v)}")
+                    if norm(wrapped) not in (f"getattr({me}, {norm(n)})", f"{me}.__class__.__dict__[{norm(n)}]"):
+                        msgs.add(f"the object stored under `{pretty(n)}` wraps `{pretty(wrapped)}`, not the method found under "
+                                 f"that key")
+            for (cons, line), msgs in sorted(per.items()):
+                found += 1
+                for m_ in sorted(msgs):
+                    r.bad(fa.mod, fa.qual, cons, m_, line)
+                if not msgs:
+                    r.ok(fa.mod, fa.qual, f"{cons} :: stored under its class-namespace key")
+    if found < 4:
+        raise AnalysisError(f"anchor vanished: decorated-method sites ({found} found)")
 
 
 def _sliced_polarity(fa, nm):
@@ -1205,14 +1276,17 @@ def rule_siblings(repo):
             try:
                 C, steps, how = resolve_storage(nm)
             except Verdict:
-                continue
+                # storage broken (reported by name-storage): the field sets are still compared; an object created by a
+                # call inside the naming function is a lazily created one
+                dx = fa.d(nm.X)
+                how = 'lazy?' if dx is not None and dx.kind == 'call' else 'named?'
             f = nm.fields()
             must = set(f) if must is None else (must & f)
             may |= f
             how_ = how
         if must is None:
             continue
-        lazy = ('__dict__' in how_) or how_.startswith('appended')
+        lazy = ('__dict__' in how_) or how_.startswith('appended') or how_ == 'lazy?'
         groups['lazy' if lazy else 'named'].append((fa, st, must, may, how_))
     g = groups['named']
     if len(g) < 3:
@@ -1993,6 +2067,14 @@ MUTANTS = [
        "    try:\n      children = s._dsl.child_components\n    except AttributeError:\n"
        "      children = s._dsl.child_components = s._collect_objects_local( lambda x: isinstance( x, Component ) )\n"
        "    return sorted( children, key = sort_key ) if sort_key else list( children )", 'R-C14-query'),
+    _m('method-port-stored-under-function-name', 'pymtl3/dsl/ComponentLevel7.py', "        setattr( s, x, CalleePort( method=method ) )",
+       "        setattr( s, method.__name__, CalleePort( method=method ) )", 'R-C14-name-storage'),
+    _m('blocking-ifc-stored-under-function-name', 'pymtl3/dsl/ComponentLevel7.py', "        setattr( s, x, CalleeIfcFL( method=method ) )",
+       "        setattr( s, method.__name__, CalleeIfcFL( method=method ) )", 'R-C14-name-storage'),
+    _m('level6-non-blocking-wraps-rdy', 'pymtl3/dsl/ComponentLevel6.py', "setattr( s, x, CalleeIfcCL( Type=Type, method=method, rdy=bind_method( rdy ) ) )",
+       "setattr( s, x, CalleeIfcCL( Type=Type, method=rdy, rdy=bind_method( rdy ) ) )", 'R-C14-name-storage'),
+    _m('field-child-index-prepended', CONN, "Q.append( ( v, indices+[i], x, True ) )", "Q.append( ( v, [i]+indices, x, True ) )",
+       'R-C14-name-storage'),
     _m('level-getter-off-by-one', COMP, "      return s._dsl.level\n", "      return s._dsl.level + 1\n", 'R-C14-api'),
 ]
 
